@@ -182,6 +182,25 @@ theorem axes_are_array_fields (sec : List (String × Json)) (k : String) (opts :
     (k, opts) ∈ axes sec ↔ (k, Json.arr opts) ∈ sec :=
   mem_axes sec k opts
 
+-- non-vacuity: a query with fields before and after the grid key, a 2-option scalar axis, an ignored
+-- non-array field and a 3-option mixed axis passes the guards, and expands into 2 × 3 queries
+def exSection : List (String × Json) :=
+  [("x", .arr [.num "1" 0, .num "2" 0]), ("note", .str "n"),
+   ("y", .arr [.str "p", .obj [("a", .null), ("w", .bool true)], .str "r"])]
+def exQuery : List (String × Json) :=
+  [("a", .num "1" 0), ("grid_search", .obj exSection), ("m", .bool false), ("z", .null)]
+
+theorem exQuery_is_grid_query : GridQuery (.obj exQuery) exQuery exSection :=
+  ⟨rfl, by rfl, by decide +kernel, by decide +kernel⟩
+
+example : ∃ outs, process (.obj exQuery) = .ok (.arr outs) ∧ outs.length = 2 * 3 := by
+  obtain ⟨outs, h1, h2⟩ := grid_count exQuery_is_grid_query
+  exact ⟨outs, h1, by rw [h2]; decide +kernel⟩
+example : processO (.obj exQuery)
+    = .ok (.ok (.arr (expand (swapRemoveKv exQuery gridKey) (axes exSection)))) := by
+  rw [process_never_panics_or_diverges, grid_expansion exQuery_is_grid_query]
+example : inRange ((axes exSection).map (·.2.length)) [1, 2] = true := by decide +kernel
+
 /-! ### each generated query, as a map -/
 
 /-- **Overlay = last writer wins.**  A generated query holds under key `k` the value of the last
@@ -247,6 +266,32 @@ theorem recursion_guard_excludes_grid_keys {sec : List (String × Json)}
     (∀ k opts o k' v', (k, Json.arr opts) ∈ sec → Json.obj o ∈ opts → (k', v') ∈ o → k' ≠ gridKey) :=
   ⟨fun k v hk => no_grid_axis_key h k v hk,
    fun k opts o k' v' hk ho hk' => no_grid_option_key h k opts hk o ho k' v' hk'⟩
+
+-- non-vacuity on the example query, combination x = 2 (index 1), y = the object option (index 1):
+-- the scalar sits under `x`, the object's entries are merged (`a` overrides the original `a`, `w` is
+-- new), untouched fields keep their values, the grid key is gone
+example : lookup (overlay (swapRemoveKv exQuery gridKey) (choice (axes exSection) [1, 1])) "x"
+    = some (.num "2" 0) := by rfl
+example : lookup (overlay (swapRemoveKv exQuery gridKey) (choice (axes exSection) [1, 1])) "a"
+    = some .null := by rfl
+example : lookup (overlay (swapRemoveKv exQuery gridKey) (choice (axes exSection) [1, 1])) "w"
+    = some (.bool true) := by rfl
+example : lookup (overlay (swapRemoveKv exQuery gridKey) (choice (axes exSection) [1, 1])) "m"
+    = lookup exQuery "m" :=
+  output_keeps_other_fields exQuery (by decide +kernel) _ "m" (by decide +kernel) (by decide +kernel)
+example : lookup (overlay (swapRemoveKv exQuery gridKey) (choice (axes exSection) [1, 1])) gridKey
+    = none :=
+  output_has_no_grid_key exQuery_is_grid_query (by decide +kernel) _
+
+/-- Options of different axes that write the same key override one another, so two *different*
+combinations can produce *equal* queries: for `{"a":[{"x":1},{"x":2}],"b":[{"x":3}]}` both give
+`{"x":3}`.  (Merge semantics of the overlay, recorded as a reading of "none twice" — see the header.) -/
+theorem colliding_options_yield_equal_queries :
+    let ax : List (String × List Json) :=
+      [("a", [.obj [("x", .num "1" 0)], .obj [("x", .num "2" 0)]]), ("b", [.obj [("x", .num "3" 0)]])]
+    inRange (ax.map (·.2.length)) [0, 0] = true ∧ inRange (ax.map (·.2.length)) [1, 0] = true ∧
+    overlay [] (choice ax [0, 0]) = overlay [] (choice ax [1, 0]) :=
+  ⟨by decide +kernel, by decide +kernel, by rfl⟩
 
 /-! ### key order (the correspondence run compares it textually) -/
 
@@ -347,6 +392,25 @@ theorem process_cases (q : Json) :
             · simp only [hd] at hp
               cases q <;> simp_all [Json.get?]
           | _ => simp at hp
+
+-- non-vacuity: the three historical witnesses are rejected as degenerate; a string value mentioning
+-- the key trips the (textual) recursion guard; a query without the key passes through
+example : process (.obj [("grid_search", .obj [("x", .arr [])])]) = .error .degenerate :=
+  (guard_rejects_exactly_degenerate _ [("x", .arr [])] (by rfl) (by decide +kernel)).mpr
+    (Or.inr ⟨("x", []), by simp [axes], rfl⟩)
+example : process (.obj [("grid_search", .obj [])]) = .error .degenerate :=
+  (guard_rejects_exactly_degenerate _ [] (by rfl) (by decide +kernel)).mpr (Or.inl rfl)
+example : process (.obj [("grid_search", .obj [("a", .num "1" 0)])]) = .error .degenerate :=
+  (guard_rejects_exactly_degenerate _ [("a", .num "1" 0)] (by rfl) (by decide +kernel)).mpr
+    (Or.inl rfl)
+example : process (.obj [("grid_search", .obj [("a", .arr [.num "1" 0]), ("note", .str "see grid_search")])])
+    = .error .recursion :=
+  guard_rejects_string_value _ [("a", .arr [.num "1" 0]), ("note", .str "see grid_search")] (by rfl)
+    "note" "see grid_search" (by simp) (by decide +kernel)
+example : process (.obj [("a", .num "1" 0)]) = .ok (.obj [("a", .num "1" 0)]) :=
+  passthrough_without_grid_section _ (by rfl)
+example : process (.str "grid_search") = .ok (.str "grid_search") :=
+  passthrough_non_object _ rfl
 
 /-! ### the plugin pipeline (`apply_input_plugins` with the grid-search plugin) -/
 
